@@ -87,7 +87,7 @@ def term_str(t):
 
 # --------------------------------------------------------------------------- facts
 class Facts:
-    def __init__(self, path, inline_unknown=True):
+    def __init__(self, path, inline_unknown=True, desugar=False):
         d = json.load(open(path))
         self.raw = d
         self.crate = d["crate"]
@@ -104,6 +104,10 @@ class Facts:
         self.inlined = {}
         if inline_unknown:
             _inline_unknown_helpers(d, self.inlined)
+        self.spliced = {}
+        if desugar:
+            _desugar_combinators(d, self.spliced)
+        self.threaded = [f["id"] for f in d["functions"] if _thread_known_variants(f)]
         for f in d["functions"]:
             fid = f["id"]
             key = fid
@@ -115,6 +119,23 @@ class Facts:
             fn = Fn(self, key, f)
             self.F[key] = fn
             self.by_id[fid].append(fn)
+        # a closure whose defining function was inlined away (helper inlining, combinator splicing) is re-parented to
+        # the function that now contains its aggregate site, so that `F[raw["parent"]]` keeps meaning "the enclosing body"
+        orphans = [g for g in self.F.values() if g.raw["kind"] == "Closure" and g.raw.get("parent") not in self.F]
+        if orphans:
+            site = {}
+            for h in self.F.values():
+                if not h.raw.get("inlined"):
+                    continue
+                for b in h.raw["blocks"]:
+                    for st in b["st"]:
+                        if st["s"] == "assign" and st["rv"]["rv"] == "agg" and st["rv"].get("def"):
+                            site.setdefault(st["rv"]["def"], []).append(h)
+            for g in orphans:
+                hosts = site.get(g.raw["id"], [])
+                if len(set(id(h) for h in hosts)) == 1:
+                    g.raw["orig_parent"] = g.raw.get("parent")
+                    g.raw["parent"] = hosts[0].raw["id"]
         self._impl_methods = None
         self._callers = None
 
@@ -1188,6 +1209,461 @@ def _remap(o, loff, boff):
     return out
 
 
+# ---------------------------------------------------------------------------------------------------------------
+# Option / Result combinators are their defining `match` (std's documented semantics).  The normalised view
+# (`Facts(.., desugar=True)`, `ctx.dsn`) rewrites `x.map_err(|e| ..)`, `x.and_then(|v| ..)`, `x.map_or_else(f, g)` …
+# into a switch on the receiver's discriminant with the closure body spliced in, so that a rule written over
+# the `match` form of a piece of code sees the combinator form as the same program.
+OPT, RES = "std::option::Option", "std::result::Result"
+_A = lambda adt, variant, x=None: ("agg", adt, variant, x)
+_COMBINATORS = {
+    # callee: (receiver adt, {variant index: action})   actions: ("same",) ("payload",) ("arg", i) ("call", i, with_payload)
+    #                                                    ("bool", b) ("agg", adt, variant, inner action or None)
+    "std::option::Option::<T>::map": (OPT, {0: _A(OPT, "None"), 1: _A(OPT, "Some", ("call", 1, True))}),
+    "std::option::Option::<T>::and_then": (OPT, {0: _A(OPT, "None"), 1: ("call", 1, True)}),
+    "std::option::Option::<T>::map_or": (OPT, {0: ("arg", 1), 1: ("call", 2, True)}),
+    "std::option::Option::<T>::map_or_else": (OPT, {0: ("call", 1, False), 1: ("call", 2, True)}),
+    "std::option::Option::<T>::unwrap_or_else": (OPT, {0: ("call", 1, False), 1: ("payload",)}),
+    "std::option::Option::<T>::ok_or_else": (OPT, {0: _A(RES, "Err", ("call", 1, False)), 1: _A(RES, "Ok", ("payload",))}),
+    "std::option::Option::<T>::ok_or": (OPT, {0: _A(RES, "Err", ("arg", 1)), 1: _A(RES, "Ok", ("payload",))}),
+    "std::option::Option::<T>::or_else": (OPT, {0: ("call", 1, False), 1: ("same",)}),
+    "std::option::Option::<T>::is_some_and": (OPT, {0: ("bool", False), 1: ("call", 1, True)}),
+    "std::option::Option::<T>::is_none_or": (OPT, {0: ("bool", True), 1: ("call", 1, True)}),
+    "std::result::Result::<T, E>::map": (RES, {0: _A(RES, "Ok", ("call", 1, True)), 1: _A(RES, "Err", ("payload",))}),
+    "std::result::Result::<T, E>::map_err": (RES, {0: _A(RES, "Ok", ("payload",)), 1: _A(RES, "Err", ("call", 1, True))}),
+    "std::result::Result::<T, E>::and_then": (RES, {0: ("call", 1, True), 1: _A(RES, "Err", ("payload",))}),
+    "std::result::Result::<T, E>::or_else": (RES, {0: _A(RES, "Ok", ("payload",)), 1: ("call", 1, True)}),
+    "std::result::Result::<T, E>::map_or": (RES, {0: ("call", 2, True), 1: ("arg", 1)}),
+    "std::result::Result::<T, E>::map_or_else": (RES, {0: ("call", 2, True), 1: ("call", 1, True)}),
+    "std::result::Result::<T, E>::unwrap_or_else": (RES, {0: ("payload",), 1: ("call", 1, True)}),
+    "std::result::Result::<T, E>::is_ok_and": (RES, {0: ("call", 1, True), 1: ("bool", False)}),
+    "std::result::Result::<T, E>::is_err_and": (RES, {0: ("bool", False), 1: ("call", 1, True)}),
+    "std::result::Result::<T, E>::ok": (RES, {0: _A(OPT, "Some", ("payload",)), 1: _A(OPT, "None")}),
+    "std::result::Result::<T, E>::err": (RES, {0: _A(OPT, "None"), 1: _A(OPT, "Some", ("payload",))}),
+}
+_VARIANTS = {OPT: ["None", "Some"], RES: ["Ok", "Err"]}
+
+
+def _desugar_combinators(d, record, max_passes=6):
+    by_id = {}
+    for f in d["functions"]:
+        by_id.setdefault(f["id"], []).append(f)
+    adts = {a["id"]: a for a in d["adts"]}
+
+    def ctor_of(path):
+        """(adt, variant) when the fn item is a tuple-variant / tuple-struct constructor."""
+        if not path:
+            return None
+        m = re.match(r"std::(?:prelude::v1|option::Option|result::Result)::(Some|Ok|Err)$", path)
+        if m:
+            return (OPT if m.group(1) == "Some" else RES, m.group(1))
+        if "::" in path:
+            a, v = path.rsplit("::", 1)
+            if a in adts and adts[a]["kind"] == "enum" and any(x["name"] == v for x in adts[a]["variants"]):
+                return (a, v)
+        if path in adts and adts[path]["kind"] == "struct":
+            return (path, None)
+        return None
+
+    def operand_uses(f, l):
+        n = 0
+
+        def walk(o):
+            nonlocal n
+            if isinstance(o, dict):
+                if o.get("k") in ("copy", "move") and o.get("pl", {}).get("l") == l:
+                    n += 1
+                for k, v in o.items():
+                    if k != "pl" or "k" not in o:
+                        walk(v)
+                if "rv" in o and o.get("rv") in ("ref", "copyderef", "discr", "rawptr") and o.get("pl", {}).get("l") == l:
+                    n += 1
+            elif isinstance(o, list):
+                for x in o:
+                    walk(x)
+        for b in f["blocks"]:
+            if b.get("cleanup"):
+                continue
+            for st in b["st"]:
+                if st["s"] == "assign":
+                    walk(st["rv"])
+            t = b["term"]
+            walk({k: v for k, v in t.items() if k in ("args", "discr", "callee_op", "val")})
+        return n
+
+    def closure_def(f, op):
+        """The closure body passed as `op`, when `op` is a local assigned one closure aggregate and used only here."""
+        if op.get("k") not in ("move", "copy") or op["pl"]["p"]:
+            return None
+        l = op["pl"]["l"]
+        defs = [st for b in f["blocks"] if not b.get("cleanup") for st in b["st"] if st["s"] == "assign" and st["pl"]["l"] == l]
+        if len(defs) != 1 or defs[0]["pl"]["p"] or defs[0]["rv"]["rv"] != "agg" or defs[0]["rv"].get("agg") != "closure":
+            return None
+        gs = by_id.get(defs[0]["rv"]["def"], [])
+        if len(gs) != 1 or gs[0].get("coroutine") or gs[0] is f or operand_uses(f, l) != 1:
+            return None
+        return gs[0]
+
+    def desugar_fn(f):
+        changed = False
+        i = 0
+        while i < len(f["blocks"]) and len(f["blocks"]) < 4000:
+            blk = f["blocks"][i]
+            i += 1
+            t = blk["term"]
+            if t["t"] != "call" or blk.get("cleanup") or t.get("callee") not in _COMBINATORS or t.get("to") is None:
+                continue
+            radt, acts = _COMBINATORS[t["callee"]]
+            recv = t["args"][0]
+            if recv.get("k") not in ("move", "copy"):
+                continue
+            # resolve every callable the actions need before touching anything
+            plan = {}
+            ok = True
+
+            def need(act):
+                nonlocal ok
+                if act[0] == "call":
+                    a = t["args"][act[1]]
+                    if a.get("k") == "const" and a.get("fn"):
+                        plan[act[1]] = ("ctor", ctor_of(a["fn"])) if ctor_of(a["fn"]) else ("fn", a["fn"])
+                    else:
+                        g = closure_def(f, a)
+                        if g is None or g["argc"] != (2 if act[2] else 1):
+                            ok = False
+                        else:
+                            plan[act[1]] = ("closure", g)
+                elif act[0] == "agg" and act[3]:
+                    need(act[3])
+            for act in acts.values():
+                need(act)
+            if not ok:
+                continue
+            line = t.get("line", 0)
+            ret_to, dest = t["to"], t["dest"]
+            lt = f["locals"]
+            rl = len(lt)
+            recv_ty = lt[recv["pl"]["l"]] if not recv["pl"]["p"] else "_"
+            f["locals"] = lt + [recv_ty, "isize"]
+            dl = rl + 1
+            if not recv["pl"]["p"]:
+                rl = recv["pl"]["l"]       # the receiver is a whole local: match on it directly
+            else:
+                blk["st"].append({"s": "assign", "pl": {"l": rl, "p": []}, "rv": {"rv": "use", "op": recv}, "line": line, "dsg": t["callee"]})
+            blk["st"].append({"s": "assign", "pl": {"l": dl, "p": []}, "rv": {"rv": "discr", "pl": {"l": rl, "p": []}, "ty": recv_ty}, "line": line, "dsg": t["callee"]})
+
+            def new_block():
+                b = {"bb": len(f["blocks"]), "cleanup": False, "st": [], "term": None, "dsg": t["callee"]}
+                f["blocks"].append(b)
+                return b
+            dead = new_block()
+            dead["term"] = {"t": "unreachable", "line": line, "exp": False}
+            targets = []
+            for vi in sorted(acts):
+                vname = _VARIANTS[radt][vi]
+                arm = new_block()
+                targets.append([vi, arm["bb"]])
+                payload_pl = {"l": rl, "p": [{"dc": vname, "v": vi}, {"f": 0, "n": "0"}]}
+
+                def emit(act, cur, out_pl):
+                    """Append code computing `act` into out_pl starting in block cur; returns the block in which control continues."""
+                    if act[0] == "same":
+                        cur["st"].append({"s": "assign", "pl": out_pl, "rv": {"rv": "use", "op": {"k": "move", "pl": {"l": rl, "p": []}}}, "line": line, "dsg": t["callee"]})
+                        return cur
+                    if act[0] == "payload":
+                        cur["st"].append({"s": "assign", "pl": out_pl, "rv": {"rv": "use", "op": {"k": "move", "pl": payload_pl}}, "line": line, "dsg": t["callee"]})
+                        return cur
+                    if act[0] == "arg":
+                        cur["st"].append({"s": "assign", "pl": out_pl, "rv": {"rv": "use", "op": t["args"][act[1]]}, "line": line, "dsg": t["callee"]})
+                        return cur
+                    if act[0] == "bool":
+                        cur["st"].append({"s": "assign", "pl": out_pl, "rv": {"rv": "use", "op": {"k": "const", "ty": "bool", "val": {"int": 1 if act[1] else 0}}}, "line": line, "dsg": t["callee"]})
+                        return cur
+                    if act[0] == "agg":
+                        ops = []
+                        if act[3]:
+                            tl = len(f["locals"])
+                            f["locals"] = f["locals"] + ["_"]
+                            cur = emit(act[3], cur, {"l": tl, "p": []})
+                            ops = [{"k": "move", "pl": {"l": tl, "p": []}}]
+                        cur["st"].append({"s": "assign", "pl": out_pl, "rv": {"rv": "agg", "agg": "adt", "adt": act[1], "variant": act[2], "fields": ["0"] if ops else [], "ops": ops},
+                                          "line": line, "dsg": t["callee"]})
+                        return cur
+                    # call of the callable passed as argument act[1]
+                    kind, what = plan[act[1]]
+                    args = [{"k": "move", "pl": payload_pl}] if act[2] else []
+                    if kind == "ctor":
+                        adt, variant = what
+                        rv = {"rv": "agg", "agg": "adt", "adt": adt, "fields": ["0"], "ops": args}
+                        if variant:
+                            rv["variant"] = variant
+                        cur["st"].append({"s": "assign", "pl": out_pl, "rv": rv, "line": line, "dsg": t["callee"]})
+                        return cur
+                    if kind == "fn":
+                        nxt = new_block()
+                        cur["term"] = {"t": "call", "callee": what, "args": args, "dest": out_pl, "to": nxt["bb"], "line": line, "exp": False, "dsg": t["callee"]}
+                        return nxt
+                    g = what
+                    loff, boff = len(f["locals"]), len(f["blocks"])
+                    cl = t["args"][act[1]]["pl"]["l"]
+                    # the closure value is used by this call only: build it where it is called (keeps the block that
+                    # tests the receiver free of unrelated statements, so that it can be threaded)
+                    for j, st0 in enumerate(blk["st"]):
+                        if st0["s"] == "assign" and st0["pl"] == {"l": cl, "p": []} and st0["rv"]["rv"] == "agg" and st0["rv"].get("agg") == "closure":
+                            caps = set(o["pl"]["l"] for o in st0["rv"]["ops"] if o.get("k") in ("move", "copy"))
+                            later = blk["st"][j + 1:]
+                            if not any(x["s"] == "assign" and x["pl"]["l"] in caps for x in later):
+                                # capture temporaries (`_10 = &_2`) defined in this block move along
+                                deps = [x for x in blk["st"][:j] if x["s"] == "assign" and x["pl"]["l"] in caps and not x["pl"]["p"] and x["rv"]["rv"] in ("ref", "use")]
+                                for x in deps + [st0]:
+                                    blk["st"].remove(x)
+                                    cur["st"].append(x)
+                            break
+                    env_ty = g["locals"][1]
+                    if env_ty.startswith("&"):
+                        cur["st"].append({"s": "assign", "pl": {"l": loff + 1, "p": []}, "rv": {"rv": "ref", "mut": env_ty.startswith("&mut") or "mut " in env_ty[:24], "pl": {"l": cl, "p": []}}, "line": line, "dsg": t["callee"]})
+                    else:
+                        cur["st"].append({"s": "assign", "pl": {"l": loff + 1, "p": []}, "rv": {"rv": "use", "op": {"k": "move", "pl": {"l": cl, "p": []}}}, "line": line, "dsg": t["callee"]})
+                    if act[2]:
+                        cur["st"].append({"s": "assign", "pl": {"l": loff + 2, "p": []}, "rv": {"rv": "use", "op": args[0]}, "line": line, "dsg": t["callee"]})
+                    cur["term"] = {"t": "goto", "to": boff, "line": line, "exp": False, "inl_call": g["id"]}
+                    f["locals"] = f["locals"] + list(g["locals"])
+                    for nm in g["names"]:
+                        f["names"].append({"name": nm["name"], "pl": _remap(nm["pl"], loff, boff)})
+                    after = None
+                    nbs = []
+                    for gb in g["blocks"]:
+                        nb = _remap(gb, loff, boff)
+                        nbs.append(nb)
+                        f["blocks"].append(nb)
+                    after = new_block()
+                    direct = not out_pl["p"]
+                    for nb in nbs:
+                        if nb["term"]["t"] == "return":
+                            if not direct:
+                                nb["st"].append({"s": "assign", "pl": out_pl, "rv": {"rv": "use", "op": {"k": "move", "pl": {"l": loff, "p": []}}}, "line": nb["term"].get("line", 0), "dsg": t["callee"]})
+                            nb["term"] = {"t": "goto", "to": after["bb"], "line": nb["term"].get("line", 0), "exp": False}
+                        if direct:
+                            _rename_local(nb, loff, out_pl["l"])
+                    f.setdefault("inlined", []).append(g["id"])
+                    for x in g.get("inlined", []):
+                        if x not in f["inlined"]:
+                            f["inlined"].append(x)
+                    f.setdefault("spliced_closures", []).append(g["id"])
+                    record.setdefault(f["id"], []).append(g["id"])
+                    spliced.add(g["id"])
+                    return after
+                end = emit(acts[vi], arm, dest)
+                end["term"] = {"t": "goto", "to": ret_to, "line": line, "exp": False}
+            blk["term"] = {"t": "switch", "discr": {"k": "move", "pl": {"l": dl, "p": []}}, "targets": targets, "otherwise": dead["bb"], "line": line, "exp": t.get("exp", False), "dsg": t["callee"]}
+            if not dest["p"]:
+                f.setdefault("joins", []).append([dest["l"], ret_to])
+            changed = True
+        return changed
+    spliced = set()
+    depth = lambda f: f["id"].count("{closure#")
+    for _ in range(max_passes):
+        any_change = False
+        for f in sorted(d["functions"], key=lambda f: -depth(f)):
+            if f["id"] in spliced:
+                continue
+            if desugar_fn(f):
+                any_change = True
+        if not any_change:
+            break
+    # a closure whose only call was spliced is no longer a separate body
+    d["functions"] = [f for f in d["functions"] if not (f["id"] in spliced and f["kind"] == "Closure")]
+
+
+
+_CF = "std::ops::ControlFlow"
+
+
+def _thread_known_variants(f):
+    """Jump threading at the joins created by inlining a helper / splicing a combinator closure.  A helper that ends in
+    `return Err(e)` / `Ok(v)` and whose caller immediately writes `helper()?` or `match helper() {..}` joins all its
+    exits in one block and splits them again right away; dominance facts (`the handler is only selected on the Ok
+    edge of the path check`) are lost at that join although every exit has a statically known variant.  For every
+    exit whose last write of the result local R is `R = Ok(..)/Err(..)/Some(..)/None` (or `from_residual`), the edge
+    to the join is redirected straight to the matching arm, as if the helper's code stood in the caller."""
+    joins = f.get("joins") or []
+    if not joins:
+        return False
+    blocks = f["blocks"]
+    changed = False
+
+    def known_variant(node, kind):
+        if kind == "assign":
+            rv = node["rv"]
+            if rv["rv"] == "agg" and rv.get("agg") == "adt" and rv.get("adt") in (OPT, RES) and rv.get("variant"):
+                return rv["adt"], rv["variant"]
+            return None
+        callee = node.get("callee") or ""
+        if callee.endswith("FromResidual::from_residual"):
+            res = node.get("resolved") or ""
+            if res.startswith("<std::result::Result<"):
+                return RES, "Err"
+            if res.startswith("<std::option::Option<"):
+                return OPT, "None"
+        return None
+
+    def classify(R, J):
+        """How the join block consumes R: ("try", b_local, cont_bb, brk_bb) | ("match", ref_stmts, {variant: bb}) | None"""
+        jb = blocks[J]
+        # skip over trivial forwarding blocks
+        hops = 0
+        while not jb["st"] and jb["term"]["t"] in ("goto", "falseedge") and hops < 6:
+            J = jb["term"]["to"]
+            jb = blocks[J]
+            hops += 1
+        t = jb["term"]
+        uses_R = lambda op: op.get("k") in ("move", "copy") and op["pl"]["l"] == R and not op["pl"]["p"]
+        if t["t"] == "call" and (t.get("callee") or "").endswith("ops::Try::branch") and t.get("to") is not None and len(t["args"]) == 1 and uses_R(t["args"][0]) \
+                and not jb["st"] and not t["dest"]["p"]:
+            j2 = blocks[t["to"]]
+            b = t["dest"]["l"]
+            if j2["term"]["t"] == "switch" and len(j2["st"]) == 1 and j2["st"][0]["s"] == "assign" and j2["st"][0]["rv"]["rv"] == "discr" \
+                    and j2["st"][0]["rv"]["pl"] == {"l": b, "p": []} and j2["term"]["discr"].get("pl") == j2["st"][0]["pl"]:
+                tg = dict((v, bb) for v, bb in j2["term"]["targets"])
+                if 0 in tg and 1 in tg:
+                    return J, ("try", b, tg[0], tg[1])
+            return J, None
+        if t["t"] == "switch" and jb["st"]:
+            last = jb["st"][-1]
+            refs = jb["st"][:-1]
+            ref_locals = set()
+            for st in refs:
+                if not (st["s"] == "assign" and st["rv"]["rv"] == "ref" and st["rv"]["pl"] == {"l": R, "p": []} and not st["pl"]["p"]):
+                    return J, None
+                ref_locals.add(st["pl"]["l"])
+            if last["s"] == "assign" and last["rv"]["rv"] == "discr" and t["discr"].get("pl") == last["pl"]:
+                pl = last["rv"]["pl"]
+                direct = pl == {"l": R, "p": []}
+                via_ref = pl["l"] in ref_locals and pl["p"] == ["*"]
+                if direct or via_ref:
+                    return J, ("match", refs, dict((v, bb) for v, bb in t["targets"]), t.get("otherwise"))
+        return J, None
+
+    for R, J0 in joins:
+        J, form = classify(R, J0)
+        if not form:
+            continue
+        # exits: blocks whose last write to R is a whole-local write of known variant and that lead to J through trivial blocks only
+        for P in range(len(blocks)):
+            pb = blocks[P]
+            if pb.get("cleanup"):
+                continue
+            kv = None
+            t = pb["term"]
+            if t["t"] == "call" and t["dest"] == {"l": R, "p": []} and t.get("to") is not None:
+                kv = known_variant(t, "call")
+                nxt = t["to"]
+            else:
+                for st in pb["st"]:
+                    if st["s"] == "assign" and st["pl"]["l"] == R:
+                        kv = known_variant(st, "assign") if not st["pl"]["p"] else None
+                if t["t"] not in ("goto", "drop", "falseedge") or t.get("to") is None:
+                    kv = None
+                nxt = t.get("to")
+            if kv is None:
+                continue
+            chain = []
+            cur = nxt
+            okc = True
+            while cur != J:
+                cb = blocks[cur]
+                if cb["st"] or cb["term"]["t"] not in ("goto", "drop", "falseedge") or cb.get("cleanup") or len(chain) > 12:
+                    okc = False
+                    break
+                chain.append(cur)
+                cur = cb["term"]["to"]
+            if not okc:
+                continue
+            adt, variant = kv
+            succ = variant in ("Ok", "Some")
+            line = pb["term"].get("line", 0)
+            T = {"bb": None, "cleanup": False, "st": [], "term": None, "thr": True}
+            if form[0] == "try":
+                _, b, cont, brk = form
+                if succ:
+                    T["st"].append({"s": "assign", "pl": {"l": b, "p": []}, "rv": {"rv": "agg", "agg": "adt", "adt": _CF, "variant": "Continue", "fields": ["0"],
+                                    "ops": [{"k": "move", "pl": {"l": R, "p": [{"dc": variant, "v": 0 if adt == RES else 1}, {"f": 0, "n": "0"}]}}]}, "line": line, "thr": True})
+                    target = cont
+                else:
+                    tl = len(f["locals"])
+                    f["locals"] = f["locals"] + ["_"]
+                    ops = [{"k": "move", "pl": {"l": R, "p": [{"dc": "Err", "v": 1}, {"f": 0, "n": "0"}]}}] if adt == RES else []
+                    T["st"].append({"s": "assign", "pl": {"l": tl, "p": []}, "rv": {"rv": "agg", "agg": "adt", "adt": adt, "variant": variant, "fields": ["0"] if ops else [], "ops": ops}, "line": line, "thr": True})
+                    T["st"].append({"s": "assign", "pl": {"l": b, "p": []}, "rv": {"rv": "agg", "agg": "adt", "adt": _CF, "variant": "Break", "fields": ["0"],
+                                    "ops": [{"k": "move", "pl": {"l": tl, "p": []}}]}, "line": line, "thr": True})
+                    target = brk
+            else:
+                _, refs, tg, otherwise = form
+                vi = _VARIANTS[adt].index(variant)
+                target = tg.get(vi, otherwise)
+                if target is None:
+                    continue
+                T["st"] = [dict(json.loads(json.dumps(st)), thr=True) for st in refs]
+            # clone the trivial chain for this exit, then T
+            first = None
+            prev = None
+            for c in chain:
+                nb = json.loads(json.dumps(blocks[c]))
+                nb["bb"] = len(blocks)
+                nb["thr"] = True
+                blocks.append(nb)
+                if prev is not None:
+                    prev["term"]["to"] = nb["bb"]
+                else:
+                    first = nb["bb"]
+                prev = nb
+            T["bb"] = len(blocks)
+            T["term"] = {"t": "goto", "to": target, "line": line, "exp": False, "thr": True}
+            blocks.append(T)
+            if prev is not None:
+                prev["term"]["to"] = T["bb"]
+            else:
+                first = T["bb"]
+            pb["term"]["to"] = first
+            changed = True
+    if changed:
+        # blocks no path reaches any more (a join all of whose exits were threaded) are emptied, so that their
+        # statements do not count as definitions
+        succs = lambda b: [x for x in ([b["term"].get("to"), b["term"].get("otherwise"), b["term"].get("imag"), b["term"].get("drop")] + [tb for _, tb in b["term"].get("targets", [])])
+                           if isinstance(x, int) and 0 <= x < len(blocks)]
+        seen = set()
+        st = [0]
+        while st:
+            x = st.pop()
+            if x in seen:
+                continue
+            seen.add(x)
+            st.extend(succs(blocks[x]))
+        for b in blocks:
+            if b["bb"] not in seen and not b.get("cleanup") and b["term"]["t"] != "unreachable":
+                b["st"] = []
+                b["term"] = {"t": "unreachable", "line": b["term"].get("line", 0), "exp": True, "thr": True}
+    return changed
+
+
+
+def _rename_local(o, a, b):
+    """In place: every occurrence of local a (as a place root or an index) becomes local b."""
+    if isinstance(o, list):
+        for x in o:
+            _rename_local(x, a, b)
+    elif isinstance(o, dict):
+        if "l" in o and "p" in o and len(o) == 2:
+            if o["l"] == a:
+                o["l"] = b
+            for e in o["p"]:
+                if isinstance(e, dict) and e.get("idx") == a:
+                    e["idx"] = b
+        else:
+            for v in o.values():
+                _rename_local(v, a, b)
+
+
 def _inline_unknown_helpers(d, record, max_blocks=120, max_depth=4):
     """Inline the MIR of crate-local helper functions that are not on tables/known_functions.txt into
     their callers, so that `extract a block into a private helper` does not hide code from the rules.
@@ -1256,13 +1732,21 @@ def _inline_unknown_helpers(d, record, max_blocks=120, max_depth=4):
             f["locals"] = f["locals"] + list(g["locals"])
             for nm in g["names"]:
                 f["names"].append({"name": nm["name"], "pl": _remap(nm["pl"], loff, boff)})
+            # the helper's return place *is* the call's destination (when that is a whole local): `_0 = Ok(..)` inside a
+            # helper whose call is the caller's tail expression reads `_0 = Ok(..)` in the caller, as if written there
+            direct = not dest["p"]
             for gb in g["blocks"]:
                 nb = _remap(gb, loff, boff)
                 if nb["term"]["t"] == "return":
-                    nb["st"].append({"s": "assign", "pl": dest, "rv": {"rv": "use", "op": {"k": "move", "pl": {"l": loff, "p": []}}}, "line": nb["term"].get("line", 0), "inl": cid})
+                    if not direct:
+                        nb["st"].append({"s": "assign", "pl": dest, "rv": {"rv": "use", "op": {"k": "move", "pl": {"l": loff, "p": []}}}, "line": nb["term"].get("line", 0), "inl": cid})
                     nb["term"] = ({"t": "goto", "to": ret_to, "line": nb["term"].get("line", 0), "exp": False} if ret_to is not None
                                   else {"t": "unreachable", "line": nb["term"].get("line", 0), "exp": False})
+                if direct:
+                    _rename_local(nb, loff, dest["l"])
                 f["blocks"].append(nb)
+            if direct and ret_to is not None:
+                f.setdefault("joins", []).append([dest["l"], ret_to])
             f.setdefault("inlined", []).append(cid)
             for x in g.get("inlined", []):
                 if x not in f["inlined"]:
